@@ -168,17 +168,35 @@ fn asp_attr(i: u8) -> Attribute {
     as_path(&segs)
 }
 
-fn mac_mobility_attr(seq: u32) -> Attribute {
-    // RFC 7432 §7.7: type 0x06, sub-type 0x00, flags, reserved, 4-octet sequence number
-    let mut ec = vec![0x06u8, 0x00, 0x00, 0x00];
-    ec.extend_from_slice(&seq.to_be_bytes());
-    Attribute::new_with_bin(Attribute::EXTENDED_COMMUNITY, ec).unwrap()
+/// EXTENDED_COMMUNITY attribute of an EVPN path.  `mm` selects how (and whether) the
+/// MAC-mobility community (RFC 7432 §7.7: type 0x06, sub-type 0x00, flags, reserved,
+/// 4-octet sequence number) is embedded among other extended communities:
+///   1 seq 0 alone, 2 seq 5 alone,
+///   3 seq 5 preceded by an ESI Label (0x06/0x01) and followed by a Route Target,
+///   4 NO MAC mobility, but a Router's MAC community (0x06/0x03) whose last octets would
+///     read as a large sequence number.
+fn evpn_ext_communities(mm: u8) -> Attribute {
+    let mobility = |seq: u32| {
+        let mut ec = vec![0x06u8, 0x00, 0x00, 0x00];
+        ec.extend_from_slice(&seq.to_be_bytes());
+        ec
+    };
+    let esi_label = vec![0x06u8, 0x01, 0x00, 0x00, 0x00, 0x00, 0x00, 0x64];
+    let route_target = vec![0x00u8, 0x02, 0xfd, 0xe8, 0x00, 0x00, 0x00, 0x01];
+    let router_mac = vec![0x06u8, 0x03, 0x02, 0x00, 0x7f, 0xff, 0xff, 0xff];
+    let bin: Vec<u8> = match mm {
+        1 => mobility(0),
+        2 => mobility(5),
+        3 => [esi_label, mobility(5), route_target].concat(),
+        _ => [router_mac, route_target].concat(),
+    };
+    Attribute::new_with_bin(Attribute::EXTENDED_COMMUNITY, bin).unwrap()
 }
 
 /// Attribute content of a path.
 #[derive(Clone, Copy, Debug, PartialEq, Eq, Hash, PartialOrd, Ord)]
 struct AttrK {
-    /// 0 none, 1 sequence 0, 2 sequence 5
+    /// 0 none, 1 sequence 0, 2 sequence 5, 3 sequence 5 among other communities, 4 other EVPN communities only
     mm: u8,
     /// carries the LLGR_STALE community
     comm: bool,
@@ -195,7 +213,7 @@ struct AttrK {
 
 fn mm_val(mm: u8) -> Option<u32> {
     match mm {
-        0 => None,
+        0 | 4 => None,
         1 => Some(0),
         _ => Some(5),
     }
@@ -222,8 +240,8 @@ fn build_attrs(k: &AttrK) -> Vec<Attribute> {
         1 => v.push(cluster_list(&[0x0b000001])),
         _ => v.push(cluster_list(&[0x0b000001, 0x0b000002])),
     }
-    if let Some(seq) = mm_val(k.mm) {
-        v.push(mac_mobility_attr(seq));
+    if k.mm != 0 {
+        v.push(evpn_ext_communities(k.mm));
     }
     v
 }
@@ -255,6 +273,8 @@ fn attr_name(k: &AttrK) -> String {
         "{}lp{} {} o{} cl{}{}{}{}",
         match k.mm {
             0 => "".to_string(),
+            3 => "esi-label+mm5+rt ".to_string(),
+            4 => "router-mac+rt(no-mm) ".to_string(),
             m => format!("mm{} ", mm_val(m).unwrap()),
         },
         ["-", "100", "200"][k.lp as usize],
@@ -602,7 +622,7 @@ fn classify_panic(msg: &str) -> String {
 /// A path kind of part (a): one value per decision step plus eligibility.
 #[derive(Clone, Copy, Debug, PartialEq, Eq, Hash, PartialOrd, Ord)]
 struct Kind {
-    mm: u8,     // 0 none, 1 seq 0, 2 seq 5
+    mm: u8,     // 0 none, 1 seq 0, 2 seq 5, 3 seq 5 among other ext. communities, 4 other EVPN ext. communities only
     llgr: u8,   // 0 no, 1 source flag, 2 LLGR_STALE community
     lp: u8,     // 0 absent, 1 = 100, 2 = 200
     asp: u8,    // index into asp_spec
@@ -615,7 +635,7 @@ struct Kind {
 }
 
 const KDIMS: usize = 10;
-const FULL: [usize; KDIMS] = [3, 3, 3, 9, 3, 5, 2, 3, 4, 3];
+const FULL: [usize; KDIMS] = [5, 3, 3, 9, 3, 5, 2, 3, 4, 3];
 
 impl Kind {
     fn from(d: &[u8]) -> Kind {
@@ -1064,7 +1084,7 @@ fn three_v4() -> [Vec<u8>; KDIMS] {
 }
 
 fn reduced_evpn() -> [Vec<u8>; KDIMS] {
-    dom([&[0, 1, 2], &[0, 1], &[1, 2], &[1, 2], &[0], &[0, 2], &[0, 1], &[0], &[0, 1], &[0, 1]])
+    dom([&[0, 1, 2, 3, 4], &[0, 1], &[1, 2], &[1, 2], &[0], &[0, 2], &[0, 1], &[0], &[0, 1], &[0, 1]])
 }
 
 /// Cover for the triples: a baseline, every single-step deviation (better and
@@ -1074,8 +1094,8 @@ fn cover(evpn: bool, doubles: bool) -> Vec<Kind> {
     // baseline: middle values so that both a better and a worse neighbour exist
     let base = Kind { mm: if evpn { 1 } else { 0 }, llgr: 0, lp: 1, asp: 2, origin: 1, role: 2, gr: 0, cl: 1, rid: 1, elig: 0 };
     // per ranking dimension: (better values, worse values)
-    let better: [&[u8]; KDIMS] = [&[2], &[], &[2], &[1, 3, 4], &[0], &[0, 1], &[], &[0], &[0, 2], &[]];
-    let worse: [&[u8]; KDIMS] = [&[0], &[1, 2], &[], &[5, 6, 7], &[2], &[4], &[1], &[2], &[3], &[1, 2]];
+    let better: [&[u8]; KDIMS] = [&[2, 3], &[], &[2], &[1, 3, 4], &[0], &[0, 1], &[], &[0], &[0, 2], &[]];
+    let worse: [&[u8]; KDIMS] = [&[0, 4], &[1, 2], &[], &[5, 6, 7], &[2], &[4], &[1], &[2], &[3], &[1, 2]];
     let set = |k: &Kind, d: usize, v: u8| {
         let mut a = k.arr();
         a[d] = v;
